@@ -33,6 +33,9 @@ def main (args : List String) : IO UInt32 := do
     match env.find? c with
     | some (.thmInfo _) =>
       if c.isInternal || !ns.isPrefixOf c then continue
+      -- auto-generated equation / matcher / proof constants are not stated theorems
+      let last := match c with | .str _ s => s | _ => ""
+      if last.startsWith "eq_" || last.startsWith "match_" || last.startsWith "proof_" || last == "sizeOf_spec" || last.startsWith "_" then continue
       let (_, (_, axs)) := (walk env c).run ({}, {})
       let axs := axs.toList.map toString
       IO.println s!"THEOREM {c} AXIOMS {",".intercalate axs}"
